@@ -73,7 +73,10 @@ RULE = ("exhaustive: every list of <= N children over all valid (min<=preferred<
         "available size (mostly unchanged) and align change; a third of the sessions (and an exhaustive two-children "
         "family) edit the SAME children list object in place (swap, reverse, replace an entry) and draw every render: "
         "the oracle then requires the drawn windows to be the CURRENT children in their CURRENT order, each within "
-        "its current min..max; 9 huge-weight cases (10^6..10^12) run on the real code "
+        "its current min..max; a quarter of the sessions have a CALLABLE padding whose value changes between the "
+        "renders (padding windows must be within its CURRENT value) and a quarter build their windows from ONE "
+        "Dimension object each while the available size goes small/large (single-call oracle against the numbers "
+        "the user gave; the user's Dimension objects must not be mutated); 9 huge-weight cases (10^6..10^12) run on the real code "
         "under an iteration budget; a case is non-trivial when at least one division has to grow a child")
 EXHAUSTIVE = True
 EXHAUSTIVE_SCOPE = {
@@ -449,9 +452,16 @@ class Session:
         self.wins = {}
         self.cond = bool(case.get("cond"))    # children wrapped in ConditionalContainer(filter=...)
         self.hidden = set()
+        self.padcall = bool(case.get("padcall"))   # padding=<callable>, its value changes between calls
+        self.shared = bool(case.get("shared"))     # Window(height=<ONE Dimension object>) for all renders
+        self.curpad = None
+        self.given = {}    # wid -> (Dimension object handed to the window, the numbers it had then)
         first = case["calls"][0]
         pad = first["pad"]
         padding = pad if isinstance(pad, int) else mkD(pad)
+        if self.padcall:
+            self.curpad = padding
+            padding = lambda: self.curpad  # noqa: E731
         if self.dir == "h":
             self.split = HSplit([], padding=padding, padding_char=PAD_CHAR, align=VALIGN[first["align"]])
         else:
@@ -460,6 +470,10 @@ class Session:
     def window(self, wid):
         if wid not in self.wins:
             get = lambda wid=wid: self.cur[wid]  # noqa: E731
+            if self.shared:
+                # the application's own Dimension object, the same one at every render
+                get = self.cur[wid]
+                self.given[wid] = (get, (get.min, get.max, get.preferred, get.weight))
             w = Window(height=get) if self.dir == "h" else Window(width=get)
             if self.cond:
                 w = ConditionalContainer(w, filter=Condition(lambda wid=wid: wid not in self.hidden))
@@ -468,8 +482,11 @@ class Session:
 
     def prepare(self, call):
         self.hidden = set(call.get("hidden") or [])
+        if self.padcall:
+            self.curpad = call["pad"] if isinstance(call["pad"], int) else mkD(call["pad"])
         for wid, spec in call["children"]:
-            self.cur[wid] = mkD(spec)
+            if not (self.shared and wid in self.cur):
+                self.cur[wid] = mkD(spec)
         new = [self.window(wid) for wid, _ in call["children"]]
         if call.get("inplace") and len(new) == len(self.split.children):
             # the SAME list object is edited in place (swap / reverse / replace an entry)
@@ -478,6 +495,17 @@ class Session:
             self.split.children = new
         self.split.align = (VALIGN if self.dir == "h" else HALIGN)[call["align"]]
         return {"dir": self.dir, "done": call["done"], "wp": call.get("wp")}
+
+
+def mutated_given(ses):
+    """the Dimension objects the application handed to the windows must keep their numbers"""
+    for wid, (obj, nums) in ses.given.items():
+        now = (obj.min, obj.max, obj.preferred, obj.weight)
+        if now != nums:
+            return [{"signature": "Dimension | object given by the application was mutated",
+                     "msg": f"the Dimension given to window {wid} was (min, max, preferred, weight) = {nums}, "
+                            f"after the render it is {now}"}]
+    return []
 
 
 def real_divide(split, case, avail):
@@ -562,7 +590,8 @@ def model_lines(case):
         for c in case["calls"]:
             # a hidden ConditionalContainer child reports Dimension.zero()
             hid = set(c.get("hidden") or [])
-            toks.append(f"{c['align']} {c['done']} {c['avail']} {spec_tokens(pad_spec(c['pad']))} {len(c['children'])}"
+            toks.append(f"{c['align']} {c['done']} {int(bool(case.get('padcall')))} {c['avail']} "
+                        f"{spec_tokens(pad_spec(c['pad']))} {len(c['children'])}"
                         + "".join(f" {wid} {spec_tokens(ZERO_SPEC if wid in hid else sp)}"
                                   for wid, sp in c["children"]))
         return [" ".join(toks)]
@@ -791,12 +820,15 @@ def check_divide(name, dims, avail, done, res, steps=None):
     return v
 
 
-def check_structure(cls, split, horiz, avail, res, specs=None):
+def check_structure(cls, split, horiz, avail, res, specs=None, padding="attr"):
     """Independent of how _all_children was built: the children stand in their listed order with
     exactly one padding between two neighbours, fillers only at the two ends; and 'too small' is
     reported exactly when the children's minimums plus (n-1) paddings do not fit."""
     v = []
     kids = split.children
+    # the padding as the USER states it now: an int, or the four arguments of a Dimension
+    # (sessions pass the current value of their padding callable; otherwise the attribute)
+    pad_now = split.padding if padding == "attr" else (padding if isinstance(padding, int) else mkD(padding))
     tags = []
     for c in split._all_children:
         idx = next((i for i, k in enumerate(kids) if k is c), None)
@@ -824,10 +856,14 @@ def check_structure(cls, split, horiz, avail, res, specs=None):
         # sizes against what the USER wrote (not against what preferred_* report): an int padding
         # is exactly that many cells, a child stays within the explicit min..max of its Dimension
         for tg, size in zip(tags, res[1]):
-            if tg == "p" and isinstance(split.padding, int) and not isinstance(split.padding, bool) \
-                    and size != split.padding:
+            if tg == "p" and isinstance(pad_now, int) and not isinstance(pad_now, bool) \
+                    and size != pad_now:
                 v.append({"signature": f"{cls} | padding window size differs from the int padding",
-                          "msg": f"padding={split.padding} but a padding window got {size}: sizes {res[1]} regions {tags}"})
+                          "msg": f"padding={pad_now} but a padding window got {size}: sizes {res[1]} regions {tags}"})
+                break
+            if tg == "p" and isinstance(pad_now, Dimension) and not (pad_now.min <= size <= pad_now.max):
+                v.append({"signature": f"{cls} | padding window outside the current min..max of the padding",
+                          "msg": f"padding now {enc_dim(pad_now)} but a padding window got {size}: sizes {res[1]} regions {tags}"})
                 break
             if isinstance(tg, int) and specs is not None and tg < len(specs):
                 mn, mx = specs[tg][0] or 0, specs[tg][1]
@@ -840,10 +876,10 @@ def check_structure(cls, split, horiz, avail, res, specs=None):
             mins = [k.preferred_height(7, avail).min for k in kids]
         else:
             mins = [k.preferred_width(avail).min for k in kids]
-        need = sum(mins) + max(len(kids) - 1, 0) * to_dimension(split.padding).min
+        need = sum(mins) + max(len(kids) - 1, 0) * to_dimension(pad_now).min
         if (res[1] is None) != (need > avail):
             v.append({"signature": f"{cls} | too-small report (children minimums plus (n-1) paddings)",
-                      "msg": f"children minimums {mins} with padding {split.padding!r} need {need}, available {avail}: "
+                      "msg": f"children minimums {mins} with padding {pad_now!r} need {need}, available {avail}: "
                              f"returned {res[1]}; align={split.align}"})
     return v
 
@@ -1094,19 +1130,31 @@ def oracle(case):
                 dims = real_dims(ses.split, pc, a)
                 if horiz and not ses.split.children:
                     dims = []
+                # the children's requirements as the USER gave them for this call (own copy of the
+                # numbers), not as preferred_* reports them
+                hid = set(c.get("hidden") or [])
+                byobj = {}
+                for wid, sp in c["children"]:
+                    w_ = ses.wins[wid]
+                    byobj[id(w_)] = None if wid in hid else mkD(sp)
+                if len(dims) == len(ses.split._all_children):
+                    dims = [byobj.get(id(ch)) or d for ch, d in zip(ses.split._all_children, dims)]
                 res = guarded(lambda: real_divide(ses.split, pc, a))
                 found = check_divide(name, dims, a, bool(c["done"]) and horiz, res, STEPS[0])
+                found += mutated_given(ses)
                 if res[0] == "hang":
                     v += found
                     break
                 found += check_structure(name.split(".")[0], ses.split, horiz, a, res,
                                          [ZERO_SPEC if wid in (c.get("hidden") or []) else sp
-                                          for wid, sp in c["children"]])
+                                          for wid, sp in c["children"]],
+                                         padding=c["pad"] if case.get("padcall") else "attr")
                 if c.get("wp"):
                     r, vis = draw(ses.split, pc)
                     if r[0] == "ok":
                         found += check_layout(wname, ses.split, pc, vis)
                         found += check_current(wname, ses, c, vis)
+                        found += mutated_given(ses)
                     else:
                         found.append({"signature": f"{wname} | {'does not terminate' if r[0] == 'hang' else 'raises ' + str(r[1])}",
                                       "msg": str(case)})
@@ -1320,6 +1368,26 @@ def cases(tier, rng):
                                         "done": 0, "inplace": inplace, "wp": wp}
             yield {"kind": "reuse", "dir": d, "cond": 0, "calls": [
                 mk([[1, a], [2, b]], 0), mk([[2, b], [1, a]], 1), mk([[3, c3], [1, a]], 1), mk([[1, a], [3, c3]], 1)]}
+    #     a CALLABLE padding whose value changes between the renders (0 at construction)
+    for d in "hv":
+        for seq in ([0, 2, 1], [1, 0, 3], [[0, 1, None, None], 2, [1, 3, 0, 2]]):
+            for al in range(4):
+                kids = [[1, [6, 6, None, 6]], [2, [2, 2, None, 2]], [3, NOSPEC]]
+                yield {"kind": "reuse", "dir": d, "cond": 0, "padcall": 1, "calls": [
+                    {"align": al, "pad": p, "children": kids, "hidden": [], "avail": 20, "done": 0, "inplace": 0,
+                     "wp": [0, 0, 20, 2] if d == "v" else [0, 0, 2, 20]} for p in seq]}
+    #     windows built from ONE Dimension object each, the available size changes (small, large, ...)
+    yield {"kind": "reuse", "dir": "h", "cond": 0, "shared": 1, "calls": [
+        {"align": 3, "pad": 0, "children": [[1, [0, 20, None, 8]], [2, [0, 20, None, 2]]], "hidden": [],
+         "avail": a, "done": 0, "inplace": 0, "wp": [0, 0, 3, a]} for a in (4, 12, 4, 30)]}
+    for i, a in enumerate(mid):
+        for j, b in enumerate(mid):
+            if (i + j) % 3:
+                continue
+            d = "hv"[(i + j) % 2]
+            yield {"kind": "reuse", "dir": d, "cond": 0, "shared": 1, "calls": [
+                {"align": 3, "pad": 0, "children": [[1, a], [2, b]], "hidden": [], "avail": av, "done": 0,
+                 "inplace": 0, "wp": None} for av in (1, 6, 0, 3)]}
     for _ in range(2500 if quick else 30000):
         d = rng.choice("hv")
         al = rng.randrange(4)
@@ -1327,6 +1395,9 @@ def cases(tier, rng):
         ids = [1, 2, 3]
         chosen = ids[:rng.choice([1, 2, 2, 3])]
         inplace_session = rng.randrange(3) == 0   # the children list object is edited in place
+        padcall = rng.randrange(4) == 0           # padding is a callable whose value changes
+        shared = rng.randrange(4) == 0            # windows built from ONE Dimension object each
+        fixed = {i: rand_spec(rng, rng.randrange(3) == 0) for i in (1, 2, 3, 4, 5)}
         avail = rng.choice([0, 3, 6, 10, 20, rng.randrange(0, 40)])
         calls = []
         cond = rng.randrange(3) == 0   # children are ConditionalContainers that come and go
@@ -1349,20 +1420,24 @@ def cases(tier, rng):
                     inplace = 1
             if r == 0 and not inplace:      # edit the children list (object identities change -> _children_cache miss)
                 chosen = rng.sample(ids, rng.choice([0, 1, 2, 3]))
-            if r == 1:      # a different available size
-                avail = rng.randrange(0, 40)
+            if r == 1 or shared:      # a different available size (shared objects: at every call)
+                avail = rng.choice([0, 1, 3, rng.randrange(0, 40), rng.randrange(20, 60)])
+            if padcall and _c:
+                pad = rand_pad(rng)
             if r == 2:      # reassign `align` while the children tuple may stay cached (as the code is)
                 al = rng.randrange(4)
             big = rng.randrange(3) == 0
             a = avail
-            calls.append({"align": al, "pad": pad, "children": [[i, rand_spec(rng, big)] for i in chosen],
+            calls.append({"align": al, "pad": pad,
+                          "children": [[i, fixed[i] if shared else rand_spec(rng, big)] for i in chosen],
                           "hidden": [i for i in chosen if cond and rng.randrange(3) == 0],
                           "inplace": inplace,
                           "avail": a, "done": 1 if (d == "h" and rng.randrange(6) == 0) else 0,
                           "wp": [rng.randrange(3), rng.randrange(3), a if d == "v" else rng.randrange(0, 5),
                                  a if d == "h" else rng.randrange(0, 5)]
                           if (inplace_session or rng.randrange(3) == 0) else None})
-        yield {"kind": "reuse", "dir": d, "cond": int(cond), "calls": calls}
+        yield {"kind": "reuse", "dir": d, "cond": int(cond), "padcall": int(padcall), "shared": int(shared),
+               "calls": calls}
     # --- nested containers (random trees of depth <= 3, <= 3 children per split)
     for _ in range(1500 if quick else 20000):
         t = rand_tree(rng, rng.choice([1, 2, 3]), [0], True, rng.randrange(2) == 1)
